@@ -13,15 +13,26 @@ From Sessions Require Import Model.Base Model.Sess Model.Hist Proofs.SessDefs
   Proofs.WriteThrough Proofs.WriteThrough2 Proofs.WriteThrough3 Proofs.WriteThrough4
   Proofs.WriteThrough5.
 
-(* --- C09_ack: each changing call that returns without error re-establishes
-   WT /\ Held, and the store has the change. *)
+(* --- C09_ack: each acknowledged change re-establishes WT /\ Held, and the
+   store has the change. acked op r = true: op is Set, Delete, LogIn, LogOut or
+   RegenerateID and r = SOk, or op is GetAndDelete and r = SVal (Some v)
+   (GetAndDelete has no error result: returning a value is its acknowledgement). *)
 
 Theorem C09_ack_sop :
+  forall s o hc op s' r cks,
+    WT s -> plan s = [] -> Held s o -> acked op r = true ->
+    do_sop s o hc op = (s', r, cks) ->
+    WT s' /\ plan s' = [] /\ Held s' o /\ Stored s' o.
+Proof. exact ack_sop. Qed.
+
+(* the same for the calls with an error result, as it was stated before
+   GetAndDelete wrote through *)
+Theorem C09_ack_sop_ok :
   forall s o hc op s' cks,
     WT s -> plan s = [] -> Held s o -> changing op = true ->
     do_sop s o hc op = (s', SOk, cks) ->
     WT s' /\ plan s' = [] /\ Held s' o /\ Stored s' o.
-Proof. exact ack_sop. Qed.
+Proof. exact ack_sop_ok. Qed.
 
 Theorem C09_ack_start :
   forall s q s' o cks,
@@ -50,29 +61,34 @@ Theorem C09_ack_set_value :
                    r_data r = Some d /\ r_data (o_rec ob) = Some d /\ kv_get d k = Some v.
 Proof. exact ack_set_value. Qed.
 
-(* --- C09_getdel_refuted: GetAndDelete never saves (defect D6). *)
+(* --- C09_ack_getdel: a GetAndDelete that returned a value has removed the
+   key from the object and from the stored record (d0: the data before). *)
 
-Theorem C09_getdel_refuted :
-  exists s o hc k v s',
-    WT s /\ plan s = [] /\ Held s o /\
-    do_sop s o hc (SGetDel k) = (s', SVal (Some v), []) /\ ~ Stored s' o.
-Proof. exact getdel_ack_refuted. Qed.
+Theorem C09_ack_getdel :
+  forall s o hc k v s' cks,
+    WT s -> plan s = [] -> Held s o ->
+    do_sop s o hc (SGetDel k) = (s', SVal (Some v), cks) ->
+    exists ob r d0, hget s' o = Some ob /\ lookup (store s') (o_id ob) = Some r /\
+                    data_of s o = Some d0 /\ kv_get d0 k = Some v /\
+                    r_data r = Some (kv_del d0 k) /\ r_data (o_rec ob) = Some (kv_del d0 k) /\
+                    (NoDup (map fst d0) -> kv_get (kv_del d0 k) k = None).
+Proof. exact ack_getdel. Qed.
 
-Theorem C09_getdel_breaks_wt : WT (stateA 0) /\ ~ WT (stateA 1).
-Proof. exact getdel_breaks_wt. Qed.
+(* Set 1:=2; GetAndDelete 1; cache loss; Get 1: the value stays gone. *)
+Theorem C09_getdel_value_gone :
+  map ob_script (run cfgA histA) = [[SOk]; [SVal (Some 2%N)]; []; [SVal None]].
+Proof. exact getdel_value_gone. Qed.
 
-Theorem C09_getdel_value_returns :
-  map ob_script (run cfgA histA) = [[SOk]; [SVal (Some 2%N)]; []; [SVal (Some 2%N)]].
-Proof. exact getdel_value_returns. Qed.
-
-(* the acknowledgement property with GetAndDelete among the changing calls *)
+(* the acknowledgement property with GetAndDelete among the changing calls:
+   every mutating call that returns neither error nor panic leaves the session
+   stored *)
 Definition C09_ack_statement : Prop := ack_statement_full.
 
-Theorem C09_ack_statement_refuted : ~ C09_ack_statement.
-Proof. exact ack_full_refuted. Qed.
+Theorem C09_ack_statement_holds : C09_ack_statement.
+Proof. exact ack_full. Qed.
 
 (* --- C09_wt: WT after every step of every fault-free, crash-free history
-   without GetAndDelete and without a change of codec. *)
+   without a change of codec (scripts are unrestricted: GetAndDelete included). *)
 
 Theorem C09_wt_step :
   forall w h,
@@ -103,14 +119,14 @@ Theorem C09_loss_history :
 Proof. exact loss_history. Qed.
 
 Print Assumptions C09_ack_sop.
+Print Assumptions C09_ack_sop_ok.
 Print Assumptions C09_ack_start.
 Print Assumptions C09_ack_create.
 Print Assumptions C09_ack_user_wide.
 Print Assumptions C09_ack_set_value.
-Print Assumptions C09_getdel_refuted.
-Print Assumptions C09_getdel_breaks_wt.
-Print Assumptions C09_getdel_value_returns.
-Print Assumptions C09_ack_statement_refuted.
+Print Assumptions C09_ack_getdel.
+Print Assumptions C09_getdel_value_gone.
+Print Assumptions C09_ack_statement_holds.
 Print Assumptions C09_wt_step.
 Print Assumptions C09_wt.
 Print Assumptions C09_loss.
